@@ -17,6 +17,7 @@ import (
 	"github.com/deadsy/sdfx/sdf"
 	v2 "github.com/deadsy/sdfx/vec/v2"
 	v3 "github.com/deadsy/sdfx/vec/v3"
+	"github.com/deadsy/sdfx/vec/v3i"
 	"github.com/golang/freetype/truetype"
 )
 
@@ -627,6 +628,57 @@ func catGyroidBoxed(r *Rng) (catShape, bool) {
 	return catOK3(sdf.Intersect3D(box, g), nil, fmt.Sprintf("sdf.Intersect3D(%s, sdf.Gyroid3D(%v))", d, k))
 }
 
+// catGyroidInfill: a bounded part intersected with an expression that contains the (unbounded) gyroid - offset for infill
+// density, shelled, shelled with a solid core, elongated, arrayed, moved or cut; the part is always the first operand.
+func catGyroidInfill(r *Rng) (catShape, bool) {
+	part, pd := catSolid3(r)
+	psz := part.BoundingBox().Size().MinComponent()
+	per := psz * r.R(0.15, 0.6) // a few periods across the part
+	k := v3.Vec{X: per * r.R(0.7, 1.4), Y: per * r.R(0.7, 1.4), Z: per * r.R(0.7, 1.4)}
+	g, err := sdf.Gyroid3D(k)
+	if err != nil {
+		return catShape{}, false
+	}
+	gd := fmt.Sprintf("Gyroid3D(%v)", k)
+	var in sdf.SDF3
+	var d string
+	switch r.I(8) {
+	case 0:
+		off := r.R(-0.6, 0.6)
+		in, d = sdf.Offset3D(g, off), fmt.Sprintf("Offset3D(%s, %.4g)", gd, off)
+	case 1:
+		t := r.R(0.05, 0.5)
+		in, err = sdf.Shell3D(g, t)
+		d = fmt.Sprintf("Shell3D(%s, %.4g)", gd, t)
+	case 2:
+		t := r.R(0.05, 0.5)
+		sh, e := sdf.Shell3D(g, t)
+		core, _ := sdf.Sphere3D(psz * r.R(0.1, 0.3))
+		in, err = sdf.Union3D(sh, sdf.Transform3D(core, sdf.Translate3d(part.BoundingBox().Center()))), e
+		d = fmt.Sprintf("Union3D(Shell3D(%s, %.4g), core sphere)", gd, t)
+	case 3:
+		h := v3.Vec{X: per * r.R(0, 1), Y: per * r.R(0, 1), Z: per * r.R(0, 1)}
+		in, d = sdf.Elongate3D(g, h), fmt.Sprintf("Elongate3D(%s, %v)", gd, h)
+	case 4:
+		num := v3i.Vec{X: r.IR(1, 3), Y: r.IR(1, 3), Z: r.IR(1, 2)}
+		step := v3.Vec{X: per * r.R(0.2, 1), Y: per * r.R(0.2, 1), Z: per * r.R(0.2, 1)}
+		in, d = sdf.Array3D(g, num, step), fmt.Sprintf("Array3D(%s, %v, %v)", gd, num, step)
+	case 5:
+		m := sdf.Translate3d(v3.Vec{X: per * r.R(-1, 1), Y: per * r.R(-1, 1), Z: per * r.R(-1, 1)}).Mul(sdf.RotateX(r.R(0, 6.28))).Mul(sdf.RotateZ(r.R(0, 6.28)))
+		in, d = sdf.Transform3D(g, m), fmt.Sprintf("Transform3D(%s, translate*rotate)", gd)
+	case 6:
+		cut, _ := sdf.Sphere3D(psz * r.R(0.1, 0.4))
+		in, d = sdf.Difference3D(g, sdf.Transform3D(cut, sdf.Translate3d(part.BoundingBox().Center()))), fmt.Sprintf("Difference3D(%s, sphere)", gd)
+	default:
+		sc := r.R(0.5, 2)
+		in, d = sdf.ScaleUniform3D(g, sc), fmt.Sprintf("ScaleUniform3D(%s, %.4g)", gd, sc)
+	}
+	if err != nil || in == nil {
+		return catShape{}, false
+	}
+	return catOK3(sdf.Intersect3D(part, in), nil, fmt.Sprintf("sdf.Intersect3D(%s, %s)", pd, d))
+}
+
 func catSlice2D(r *Rng) (catShape, bool) {
 	s, d := catSolid3(r)
 	bb := s.BoundingBox()
@@ -757,6 +809,7 @@ func init() {
 		catEntry{Name: "sdf.NewVoxelSDF3", Pkg: "sdf", Gen: catVoxel},
 		catEntry{Name: "sdf.Gyroid3D", Pkg: "sdf", Unbounded: true, Gen: catGyroid},
 		catEntry{Name: "sdf.Gyroid3D-intersected", Pkg: "sdf", Gen: catGyroidBoxed},
+		catEntry{Name: "sdf.Gyroid3D-infill", Pkg: "sdf", Gen: catGyroidInfill},
 		catEntry{Name: "sdf.Slice2D", Pkg: "sdf", Gen: catSlice2D},
 		catEntry{Name: "sdf.Revolve3D", Pkg: "sdf", Gen: catRevolve3D},
 		catEntry{Name: "sdf.Cache2D", Pkg: "sdf", Gen: catCache2D},
